@@ -111,6 +111,9 @@ func (x *Exec) pos(p token.Pos) string {
 
 func (x *Exec) oblige(st *State, class, name string, goal Term, p token.Pos, src string) *Obligation {
 	full := x.key + "/" + name
+	if x.mode == "U" {
+		full = x.key + "/U/" + name
+	}
 	if x.caseLbl != "" {
 		full += "@" + x.caseLbl
 	}
